@@ -45,9 +45,13 @@ def pairing(ctx, rule):
         bb = ctx.body(p)
         calls = [q.shape(bb.expr_of_call(t)) for bi, t in bb.calls()]
         ok = any(c.endswith("::lookup_token(arg1,arg2,arg3)") for c in calls) and any(c.startswith("Option::and_then(") and "lookup_token(arg1,arg2,arg3)" in c for c in calls)
-        ctx.check(ok, rule, p, "lookup-then-resolve", "the map-level entry looks the position up and resolves from that token", detail=str(calls)[:200])
         cl = list(ctx.facts.closures_of(p))
         inner = [q.shape(c.expr_of_call(t)) for c in cl for bi, t in c.calls()]
+        direct = [c for c in calls if q.wild("SourceView::get_original_function_name(arg5,try(*::lookup_token(arg1,arg2,arg3)),arg4)", c)]
+        if direct and not inner:
+            # `let token = self.lookup_token(..)?; sv.get_original_function_name(token, name)`
+            ok, inner = True, ["SourceView::get_original_function_name(^arg5,arg2,^arg4)"]
+        ctx.check(ok, rule, p, "lookup-then-resolve", "the map-level entry looks the position up and resolves from that token", detail=str(calls)[:200])
         ctx.check(inner == ["SourceView::get_original_function_name(^arg5,arg2,^arg4)"], rule, p, "resolve-args", "token, minified name and view are forwarded unchanged", detail=str(inner))
 
 
@@ -165,7 +169,7 @@ def strip_shape(ctx, rule):
     v = ctx.body("js_identifiers::is_valid_javascript_identifier")
     calls = [q.shape(v.expr_of_call(t)) for bi, t in v.calls()]
     rets = [q.shape(v.expr_of_rvalue(s["rv"])) for bi, si, s, it in v.locations() if not it and s["k"] == "assign" and s["place"]["l"] == 0]
-    ok = rets == ["Eq(Option::map_or(js_identifiers::strip_identifier(arg1),0,\u03bb(str::len(p1))),str::len(arg1))"]
+    ok = rets == ["Eq(Option::map_or(js_identifiers::strip_identifier(arg1),0,fn:str::len),str::len(arg1))"]
     ctx.check(ok, rule, v.path, "whole-string", "a string is an identifier exactly when stripping keeps its whole length", detail=str(rets))
     g = ctx.body("js_identifiers::get_javascript_token")
     calls = [q.shape(g.expr_of_call(t)) for bi, t in g.calls()]
